@@ -55,12 +55,20 @@ async def async_map_unordered(
     start_times = {f: t for f in pending}
     end_times = {}
     backups: dict[asyncio.Future, asyncio.Future] = {}
+    # tasks whose twin (original or backup) has already delivered the result
+    superseded: set[asyncio.Future] = set()
 
     while pending:
         finished, pending = await asyncio.wait(
             pending, return_when=asyncio.FIRST_COMPLETED, timeout=2
         )
         for task in finished:
+            if task in superseded:
+                # twin finished in the same round and has already been handled
+                superseded.discard(task)
+                if not task.cancelled():
+                    task.exception()  # mark as retrieved
+                continue
             # TODO: use exception groups in Python 3.11 to handle case of multiple task exceptions
             if task.exception():
                 # if the task has a backup that is not done, or is done with no exception, then don't raise this exception
@@ -85,6 +93,8 @@ async def async_map_unordered(
                 if backup:
                     if backup in pending:
                         pending.remove(backup)
+                    elif backup in finished:
+                        superseded.add(backup)
                     del backups[task]
                     del backups[backup]
                     backup.cancel()
